@@ -162,7 +162,7 @@ def judge(case, out, m):
         if case['kind'] == 'url': got = c09.norm_model(case['tid'], mm)
         elif case['kind'] == 'cookie': got = c11.norm_model(case['tid'], mm)
         else: got = mm
-        if got != out: v.append(('disagree', f'{case["kind"]} {unhx(case["input"])[:80]!r}: impl {str(out)[:160]} model {str(got)[:160]}'))
+        if got != {k: x for k, x in out.items() if k != 'served'}: v.append(('disagree', f'{case["kind"]} {unhx(case["input"])[:80]!r}: impl {str(out)[:160]} model {str(got)[:160]}'))
     return v
 
 
